@@ -273,6 +273,7 @@ type LState struct {
 // StepResult is everything observable about one block step.
 type StepResult struct {
 	Pre, AfterBegin, Post *Snap
+	AfterTx               *Snap // after the execution-block requests, before EndBlocker (when the monitor asks for mid-block snapshots)
 	BeginErr, TxErr, EndErr error
 	ValSetErr               error
 	Truncated               bool // validator set would become empty (environment assumption)
@@ -445,6 +446,9 @@ func (w *World) Step(st *LState, b *LBlock, wantMid bool) (*LState, *StepResult)
 			res.Delivered = nil
 		} else {
 			write()
+		}
+		if wantMid {
+			res.AfterTx = TakeSnap(w.N, bctx)
 		}
 		res.Updates, res.EndErr = k.EndBlocker(bctx)
 	}()
